@@ -1,5 +1,253 @@
-import RSVerif.Basic
-/- C16: line-protocol driver (stub) -/
+import RSVerif.Model.Rump
+/- C16: line-protocol driver. Case format: see go/harness/c16.go. -/
 namespace RSVerif.Drive.C16
-def handle (_line : String) : String := "unimplemented"
+open RSVerif RSVerif.Spec.MiniRedisC16 RSVerif.Rump
+
+def listOf (s : String) (sep : String) : List String :=
+  if s == "-" || s == "" then [] else s.splitOn sep
+
+def hexList (s : String) : Option (List Bytes) := (listOf s ",").mapM ofHex
+
+def parseVal (s : String) : Option (Option Value) :=
+  if s == "N" then some none else
+  match s.splitOn "." with
+  | [] => none
+  | kind :: items =>
+    let pairs : Option (List (Bytes × Bytes)) := items.mapM fun it =>
+      match it.splitOn "~" with
+      | [a, b] => do pure ((← ofHex a), (← ofHex b))
+      | _ => none
+    let singles : Option (List Bytes) := items.mapM ofHex
+    match kind with
+    | "S" => match singles with | some [b] => some (some (.str b)) | _ => none
+    | "L" => singles.map fun xs => some (.list xs)
+    | "T" => singles.map fun xs => some (.set xs)
+    | "H" => pairs.map fun xs => some (.hash xs)
+    | "Z" => pairs.map fun xs => some (.zset xs)
+    | "O" => match singles with | some [b] => some (some (.opaque b)) | _ => none
+    | _ => none
+
+def expandVal : Value → Option (List Elem)
+  | .str b => some [.set b]
+  | .list xs => some (xs.map .rpush)
+  | .set xs => some (xs.map .sadd)
+  | .hash kv => some (kv.map fun (f, v) => .hset f v)
+  | .zset ms => some (ms.map fun (m, s) => .zadd s m)
+  | .opaque _ => none
+
+structure Ev where
+  db : Nat
+  page : Nat
+  dump : Bool
+  idx : Nat
+  vdb : Nat
+  vkey : Key
+
+structure Case where
+  cfg : Config
+  file : Bool
+  dbs : List Nat
+  pays : List (Payload × Option Value)
+  src : List (Nat × Key × Nat × Int)
+  scr : List (Nat × List (Nat × List Key))
+  lines : List Key
+  evs : List Ev
+  tgt : List (Nat × Key × Value × Int)
+
+def getTok (toks : List String) (k : String) : Option String :=
+  toks.findSome? fun t => if t.startsWith (k ++ "=") then some ((t.drop (k.length + 1)).toString) else none
+
+def parseCase (line : String) : Option Case := do
+  let toks := line.splitOn " "
+  guard (toks.head? == some "rump")
+  let g := getTok toks
+  let n ← (← g "n").toNat?
+  let tdb ← (← g "tdb").toInt?
+  let ke ← g "ke"
+  let big ← (← g "big").toNat?
+  let kb ← hexList (← g "kb")
+  let kw ← hexList (← g "kw")
+  let dbb := listOf (← g "dbb") ","
+  let dbw := listOf (← g "dbw") ","
+  let mode ← g "mode"
+  let dbs ← (listOf (← g "dbs") ",").mapM String.toNat?
+  let pays ← (listOf (← g "pay") ";").mapM fun x =>
+    match x.splitOn ":" with
+    | [p, v] => do pure ((← ofHex p), (← parseVal v))
+    | _ => none
+  let src ← (listOf (← g "src") ";").mapM fun x =>
+    match x.splitOn ":" with
+    | [d, k, p, t] => do pure ((← d.toNat?), (← ofHex k), (← p.toNat?), (← t.toInt?))
+    | _ => none
+  let scr ← (listOf (← g "scr") ";").mapM fun x =>
+    match x.splitOn "/" with
+    | [d, pgs] => do
+      let pages ← (pgs.splitOn "|").mapM fun pg =>
+        match pg.splitOn ":" with
+        | [c, ks] => do pure ((← c.toNat?), (← hexList ks))
+        | _ => none
+      pure ((← d.toNat?), pages)
+    | _ => none
+  let lines ← hexList (← g "file")
+  let evs ← (listOf (← g "ev") ",").mapM fun x =>
+    match x.splitOn "/" with
+    | [d, pg, ph, i, vd, vk] => do
+      pure (⟨← d.toNat?, ← pg.toNat?, ph == "D", ← i.toNat?, ← vd.toNat?, ← ofHex vk⟩ : Ev)
+    | _ => none
+  let tgt ← (listOf (← g "tgt") ";").mapM fun x =>
+    match x.splitOn ":" with
+    | [d, k, v, t] => do
+      match ← parseVal v with
+      | some val => pure ((← d.toNat?), (← ofHex k), val, (← t.toInt?))
+      | none => none
+    | _ => none
+  let cfg : Config := {
+    pageSize := n, targetDb := if tdb < 0 then none else some tdb.toNat, rewrite := ke == "rewrite",
+    bigThreshold := big, keyBlack := kb, keyWhite := kw, dbBlack := dbb, dbWhite := dbw }
+  pure ⟨cfg, mode == "file", dbs, pays, src, scr, lines, evs, tgt⟩
+
+def Case.codec (c : Case) : Codec where
+  materialise p := (c.pays.find? (·.1 == p)).bind (·.2)
+  expand p := ((c.pays.find? (·.1 == p)).bind (·.2)).bind expandVal
+
+def Case.sks (c : Case) : SKeyspace := fun d k =>
+  (c.src.find? fun (d', k', _, _) => d' == d && k' == k).bind fun (_, _, p, t) =>
+    (c.pays[p]?).map fun pv => ⟨pv.1, if t < 0 then none else some t.toNat⟩
+
+def Case.tks (c : Case) : Keyspace := fun d k =>
+  (c.tgt.find? fun (d', k', _, _) => d' == d && k' == k).map fun (_, _, v, t) =>
+    ⟨v, if t < 0 then none else some t.toNat⟩
+
+/-- positional event lists of one page -/
+def Case.evsOf (c : Case) (db page : Nat) (dump : Bool) : List (List (Nat × Key)) :=
+  let es := c.evs.filter fun e => e.db == db && e.page == page && e.dump == dump
+  let m := es.foldl (fun a e => max a (e.idx + 1)) 0
+  (List.range m).map fun i => (es.filter (·.idx == i)).map fun e => (e.vdb, e.vkey)
+
+def Case.scanSrc (c : Case) : ScanSrc :=
+  if c.file then
+    -- the key file is read while the first db that passes the filter is fetched
+    let db := (c.dbs.find? fun d => !filterDB c.cfg d).getD 0
+    let np := c.lines.length / (max c.cfg.pageSize 1) + 1
+    .keyFile (kfPages c.cfg.pageSize c.lines ((List.range np).map fun j => (c.evsOf db j true, c.evsOf db j false)))
+  else
+    .normal fun db =>
+      match c.scr.find? (·.1 == db) with
+      | none => []
+      | some (_, pages) => pages.zipIdx.map fun ((cur, keys), j) => ⟨cur, keys, c.evsOf db j true, c.evsOf db j false⟩
+
+/-! rendering -/
+
+def hexK (b : Bytes) : String := hexOrDash b
+
+def joinOr (xs : List String) (sep : String) : String := if xs.isEmpty then "-" else sep.intercalate xs
+
+def renderSrc : SrcCmd → String
+  | .select d => s!"s{d}"
+  | .scan c n => s!"c{c}/{n}"
+  | .dump k => "d" ++ hexK k
+  | .pttl k => "t" ++ hexK k
+  | .exec => "x"
+
+def renderElem : Elem → String
+  | .set v => "S" ++ hexK v
+  | .rpush v => "R" ++ hexK v
+  | .sadd m => "A" ++ hexK m
+  | .hset f v => "H" ++ hexK f ++ "~" ++ hexK v
+  | .zadd s m => "Z" ++ hexK m ++ "~" ++ hexK s
+
+def renderWire : Wire → String
+  | .flush => "m.f"
+  | .cmd c x =>
+    (match c with | .main => "m." | .big => "b.") ++
+    match x with
+    | .select d => s!"s{d}"
+    | .restore k ttl p r => "r" ++ hexK k ++ s!"/{ttl}/" ++ hexK p ++ (if r then "/R" else "/-")
+    | .del k => "d" ++ hexK k
+    | .pexpire k ms => "p" ++ hexK k ++ s!"/{ms}"
+    | .elem k e => "e" ++ hexK k ++ "/" ++ renderElem e
+
+def sortStr (xs : List String) : List String := xs.mergeSort (fun a b => decide (a ≤ b))
+
+def canonVal : Value → String
+  | .str b => "S." ++ hexK b
+  | .list xs => ".".intercalate ("L" :: xs.map hexK)
+  | .set xs => "T." ++ ".".intercalate (sortStr (xs.map hexK))
+  | .hash kv => "H." ++ ".".intercalate (sortStr (kv.map fun (f, v) => hexK f ++ "~" ++ hexK v))
+  | .zset ms => "Z." ++ ".".intercalate (sortStr (ms.map fun (m, s) => hexK m ++ "~" ++ hexK s))
+  | .opaque t => "O." ++ hexK t
+
+def dedup [BEq α] (xs : List α) : List α := xs.foldl (fun acc x => if acc.contains x then acc else acc ++ [x]) []
+
+def Case.renderKs (c : Case) (ks : Keyspace) : String :=
+  let dbs := dedup (c.dbs ++ c.src.map (·.1) ++ c.tgt.map (·.1) ++ (match c.cfg.targetDb with | some d => [d] | none => []) ++ [0])
+  let dbs := dbs.mergeSort (fun a b => decide (a ≤ b))
+  let keys := dedup (c.src.map (·.2.1) ++ c.tgt.map (·.2.1) ++ c.lines ++ (c.scr.flatMap fun (_, pgs) => pgs.flatMap (·.2)))
+  let keys := (keys.map fun k => (hexK k, k)).mergeSort (fun a b => decide (a.1 ≤ b.1))
+  let ents := dbs.flatMap fun d => keys.filterMap fun (h, k) =>
+    (ks d k).map fun e => s!"{d}:{h}:{canonVal e.val}:" ++ (match e.ttl with | none => "-1" | some t => toString t)
+  joinOr ents ";"
+
+/-- the hypotheses of `Properties.C16.copied_exact` (`Hyps Fixes.all …`), checked over the finite universe of the case -/
+def Case.hypsHold (c : Case) (src : ScanSrc) : Bool :=
+  let M := c.codec
+  let sc := scanned c.cfg src c.dbs
+  -- Codec.Sound on the payload table (every other payload has no expansion)
+  (c.pays.all fun (p, _) => match M.expand p with
+    | none => true
+    | some es => match M.materialise p with
+      | none => false
+      | some v => replay none es == some (some v)) &&
+  -- payloads of the source
+  (c.src.all fun (_, _, pi, _) => match c.pays[pi]? with
+    | none => false
+    | some (p, _) => (M.materialise p).isSome && (decide (c.cfg.bigThreshold ≤ p.length) → (M.expand p).isSome)) &&
+  -- distinct target addresses
+  decide ((sc.map (tAddr c.cfg)).Nodup) &&
+  -- policy
+  (sc.all fun a => (c.tks (targetDbOf c.cfg a.1) a.2).isNone || c.cfg.rewrite)
+
+/-- the target keyspace `copied_exact` predicts: a scanned key that still exists at the end of the fetch is there with the
+value of its payload and `ttlSpec` of its ttl; an address no scanned key maps to keeps what it had. (An address whose
+scanned key vanished during the run is not determined by the theorem; the model's answer is used.) -/
+def Case.specKs (c : Case) (src : ScanSrc) (r : RunOut) : Keyspace := fun d k =>
+  match (scanned c.cfg src c.dbs).find? (fun a => tAddr c.cfg a == (d, k)) with
+  | none => c.tks d k
+  | some a =>
+    match r.fetch.ks a.1 a.2 with
+    | some e => (c.codec.materialise e.payload).map fun v => ⟨v, ttlSpec e.ttl⟩
+    | none => r.w.tgt.ks d k
+
+def handleDbList (toks : List String) : String :=
+  let g := getTok toks
+  match g "dbb", g "dbw", g "counts" with
+  | some dbb, some dbw, some cs =>
+    let counts : Option (List (Nat × Nat)) := (listOf cs ",").mapM fun x =>
+      match x.splitOn ":" with
+      | [d, n] => do pure ((← d.toNat?), (← n.toNat?))
+      | _ => none
+    match counts with
+    | none => "badcase"
+    | some counts =>
+      let cfg : Config := ⟨1, none, false, 0, [], [], listOf dbb ",", listOf dbw ","⟩
+      let r := sourceDbList cfg counts
+      let dbs := r.1.mergeSort (fun a b => decide (a ≤ b))
+      s!"dbs={joinOr (dbs.map toString) ","} total={r.2}"
+  | _, _, _ => "badcase"
+
+def handle (line : String) : String :=
+  if line.startsWith "dblist " then handleDbList (line.splitOn " ") else
+  match parseCase line with
+  | none => "badcase"
+  | some c =>
+    let src := c.scanSrc
+    let r := run Fixes.all c.cfg c.codec src c.sks c.dbs (Target.init c.tks)
+    let hyp := c.hypsHold src
+    let ks := if hyp then c.specKs src r else r.w.tgt.ks
+    let st (b : Bool) := if b then "a" else "o"
+    let closed := if r.recv.aborted || r.recv.starved then 0 else 1
+    s!"src={joinOr ((fetcherTrace c.cfg src 0 c.dbs).map renderSrc) ","} tgt={joinOr (r.w.wire.map renderWire) ","} " ++
+    s!"ks={c.renderKs ks} st={st (!r.fetch.ok)}{st r.w.aborted}{st (r.recv.aborted || r.recv.starved)} " ++
+    s!"closed={closed} conf={r.recv.confirmed} unread={r.recv.unread.length} unsent={r.w.buf.length} hyp={if hyp then 1 else 0}"
+
 end RSVerif.Drive.C16
